@@ -109,7 +109,7 @@ def run(ctx):
     ctx.cov.update({
         "evaluations": summ["rpcs"],
         "distinct_nontrivial": summ["nontrivial"],
-        "rule": "evaluations = RPCs sent to real server processes (each script runs twice: complete, and with one tenant's calls removed, on fresh servers); a script is non-trivial when it is distinct after canonicalisation and a tenant reads/searches/deletes a local id (or scans) that two tenants have written (colliding ids exercised); scripts: 2-3 tenants, local ids 1..8 shared, 10 shared vectors on the 1/8 grid, namespaces {'',n1,n2}, spoofed __tenant_idx__/__tenant_id__/__namespace__ keys in client metadata, NOT/OR/AND/IN filters incl. filters on reserved keys, missing / wrong / disabled API keys, out-of-range and zero ids, wrong dimensions",
+        "rule": "evaluations = RPCs sent to real server processes (each script runs twice: complete, and with one tenant's calls removed, on fresh servers); a script is non-trivial when it is distinct after canonicalisation and a tenant reads/searches/deletes a local id (or scans) that two tenants have written (colliding ids exercised); scripts: 2-3 tenants, local ids 1..8 shared, 10 shared vectors on the 1/8 grid, namespaces {'',n1,n2}, spoofed __tenant_idx__/__tenant_id__/__namespace__ keys in client metadata, NOT/OR/AND/IN filters incl. filters on reserved keys, missing / wrong / disabled API keys, wrong dimensions; adversarial out-of-range local ids (2^32, 2^32|l, (j<<32)|l for every tenant index j and colliding l, u64::MAX, 0) in every RPC kind incl. BulkLoadHnsw/BulkInsert items (directed attack scripts: one tenant aims all RPC kinds at the other tenants' id ranges, then every tenant takes a census); tenant acme always has TWO enabled API keys (key rotation) and is also called through the second one; a quarter of the scripts stop the server, append a brand-new tenant to the key file, restart on the same data dir and let the new tenant probe colliding ids before writing (model: TenantIdMapper::load_or_create / ensure_tenant index assignment and restart_state, evaluated in coqc); extra direct oracle: a tenant that has written nothing sees nothing",
         "scripts": summ["scripts_run"], "server_processes": summ["server_runs"],
         "samples": summ["samples"][:2],
         "histogram": summ["histogram"],
@@ -144,8 +144,8 @@ def run(ctx):
                            "why": "tenant %s's %s answer depends on tenant %s's calls" % (h["victim"], "Search" if "search" in cls else "FlushHotTier", h["removed"]),
                            "call_index": h["call_index"], "with_other_tenant": h["with_other_tenant"],
                            "without_other_tenant": h["without_other_tenant"],
-                           "victim": {"acme": 0, "bolt": 1, "cato": 2}.get(h["victim"], 0),
-                           "removed": {"acme": 0, "bolt": 1, "cato": 2}.get(h["removed"], 1),
+                           "victim": {"acme": 0, "bolt": 1, "cato": 2, "dax": 3}.get(h["victim"], 0),
+                           "removed": {"acme": 0, "bolt": 1, "cato": 2, "dax": 3}.get(h["removed"], 1),
                            "case": h["case"], "replay_cmd": "./check C10 --replay <this file>"})
     broken = list(gen_broken)
     if not proofs_ok:
